@@ -1190,15 +1190,6 @@ fn gen_cluster(r: &mut Rng, crashy: bool) -> String {
             ops.push(format!("cc,0,add.{}.p", i));
         }
         ops.push(format!("cc,0,bp.{}.a", (2..=n).map(|x| x.to_string()).collect::<Vec<_>>().join("+")));
-        // sometimes the cluster shrinks again: peers leave, or the first node itself is taken out
-        if r.chance(1, 2) {
-            if n > 3 || r.chance(1, 2) {
-                ops.push(format!("cc,0,br.{}", (3..=n).map(|x| x.to_string()).collect::<Vec<_>>().join("+")));
-            }
-            if r.chance(2, 3) {
-                ops.push("cc,0,rm.1".to_string());
-            }
-        }
     }
     let mut up = vec![true; n as usize];
     let steps = r.range(5, 18);
